@@ -130,6 +130,10 @@ def cacheable_spec(rng):
             k = rng.choice(sorted(v))
             v[k] = f"alt{j}:{k}"
             inputs_pool.append(v)
+        if rng.random() < 0.4:
+            # arguments that are equal and hash alike but are different values (1, 1.0, True)
+            k = rng.choice(sorted(base))
+            inputs_pool = [dict(base, **{k: x}) for x in (1, 1.0, True)]
     for ns in spec["nodes"]:
         if ns["k"] in ("fn", "ifelse", "route") and rng.random() < 0.65:
             ns["cache"] = True
@@ -202,7 +206,7 @@ def history(ctx, i, backend_kind):
         for r in range(rng.randint(3, 10)):
             inputs = rng.choice(pool)
             runner = rng.choice(["sync", "async"])
-            ikey = repr(sorted(inputs.items()))
+            ikey = repr(sorted(inputs.items(), key=lambda kv: kv[0]))
             if (ikey, runner) not in uncached:
                 u = run_once(built, inputs, runner, None)
                 uncached[(ikey, runner)] = (u.status, u.values, set(u.rec.invocations()) - cacheable)
@@ -215,8 +219,8 @@ def history(ctx, i, backend_kind):
                 ctx.inconc(o.inconclusive or "deadlock")
                 break
             ust, uvals, unc_ran = uncached[(ikey, runner)]
-            if o.exc is not None or o.status != ust or o.values != uvals:
-                diff = sorted(k for k in set(o.values or {}) | set(uvals or {}) if (o.values or {}).get(k, "<absent>") != (uvals or {}).get(k, "<absent>"))
+            if o.exc is not None or o.status != ust or o.values != uvals or repr(o.values) != repr(uvals):
+                diff = sorted(k for k in set(o.values or {}) | set(uvals or {}) if repr((o.values or {}).get(k, "<absent>")) != repr((uvals or {}).get(k, "<absent>")))
                 ctx.violation("C09:cached-differs-from-uncached", f"{label}: cached run {o.status} {o.exc!r} differs from the uncached run on {diff}: {core.short({k: (o.values or {}).get(k, '<absent>') for k in diff})} vs {core.short({k: (uvals or {}).get(k, '<absent>') for k in diff})}", c2)
                 break
             ran_nc = set(o.rec.invocations()) - cacheable
